@@ -116,21 +116,32 @@ def _migrate_csv_to_rules(csv_file: str, config_dir: str, backup: bool = True) -
     import shutil
 
     try:
+        new_file = os.path.join(config_dir, 'merchants.rules')
+        if os.path.exists(new_file):
+            # Never overwrite a rules file the user already has (tally init applies the same guard)
+            print(f"  {C.RED}✗{C.RESET} config/merchants.rules already exists - not overwriting it")
+            print(f"      Rename or remove it, or set merchants_file in settings.yaml, then run again")
+            return False
+
         # Load and convert
         csv_rules = load_merchant_rules(csv_file)
         content = csv_to_merchants_content(csv_rules)
 
         # Write new file
-        new_file = os.path.join(config_dir, 'merchants.rules')
         with open(new_file, 'w', encoding='utf-8') as f:
             f.write(content)
         print(f"  {C.GREEN}✓{C.RESET} Created: config/merchants.rules")
         print(f"      Converted {len(csv_rules)} merchant rules to new format")
 
-        # Backup old file
+        # Backup old file under a name that is not taken (never overwrite an earlier backup)
         if backup and os.path.exists(csv_file):
-            shutil.move(csv_file, csv_file + '.bak')
-            print(f"  {C.GREEN}✓{C.RESET} Backed up: merchant_categories.csv → .bak")
+            backup_file = csv_file + '.bak'
+            n = 1
+            while os.path.exists(backup_file):
+                backup_file = f"{csv_file}.bak.{n}"
+                n += 1
+            shutil.move(csv_file, backup_file)
+            print(f"  {C.GREEN}✓{C.RESET} Backed up: merchant_categories.csv → {os.path.basename(backup_file)}")
 
         # Update settings.yaml to reference new file
         settings_path = os.path.join(config_dir, 'settings.yaml')
